@@ -265,7 +265,7 @@ func malformed(g *GenCtx) {
 	for _, l := range []string{
 		"enc", "=00", "enc =00", "enc zz", "enc 0", "enc 01 02", "dec 0g", "absorb", "absorb 123", "sq", "sq x", "sq -1", "sq 1 2",
 		"sqk", "sqk 0x10", "ratchet 1", "init", "init 00", "init 00 00", "init 00 00 00 00", "init 0 - -",
-		"empty 1", "frobnicate", "want 00", "ENC 00", "new 1",
+		"empty 1", "frobnicate", "want 00", "ENC 00",
 	} {
 		g.Op("%s", l)
 		if g.R.Chance(1, 2) {
@@ -273,6 +273,8 @@ func malformed(g *GenCtx) {
 		}
 	}
 	g.Op("enc 00ff")
+	g.Op("sq 16")
+	g.Op("new 1") // a malformed `new` is a case of its own
 	g.Op("sq 16")
 }
 
